@@ -41,7 +41,8 @@ def run_one(k, sd, props, tier, seeds):
     d = f"{ROOT}/slot{k}"
     repo, v = f"{d}/repo", f"{d}/verif"
     sh(f"git -C {repo} checkout -q -- . && git -C {repo} clean -fdq")
-    ap = sh(f"git -C {repo} apply {os.path.join(sd, 'patch.diff')}")
+    pf = os.path.join(sd, 'patch.diff')
+    ap = sh(f"git -C {repo} apply {pf}") if os.path.exists(pf) and os.path.getsize(pf) > 0 else sh("true")
     if ap.returncode != 0:
         print(f"{os.path.basename(sd)}: patch does not apply: {ap.stdout}", flush=True)
         return
